@@ -12,6 +12,9 @@
       (per layer the answers to the physical requests of the POST exchange and of the upload PUT exchange, then
        which goroutine's request arrives next, then the answers of the manifest PUT exchange)
       -> "<events L<i>[p|u]:<METHOD>:<status> … M:<METHOD>:<status>> res=<ok|err>" | bad-schedule
+    pullcov <same arguments as pull>
+      -> the branch tags of the model's run of that history (Model/RegistryCov.lean `historyTags`), space separated;
+         used by the check to count which branches of the model the generator reached
     hpull <thr> <limit|-1> <linkShortcut> <verify> <staged> <nattempts> {attempt}*   (Local.handlePull's loop; the
       scripts are consumed one per Pull; when they run out while the loop still retries, the client goes away)
       -> "res=<ok|err:cls|clientGone> success=<true|false> attempts=<k> link=<manifest id|none>"
@@ -24,6 +27,7 @@
       -> "<events L<i>[h|p|a|c]:<METHOD>:<status> … M:<METHOD>:<status>> res=<ok|err>"
 -/
 import OllamaVerif.Model.Registry
+import OllamaVerif.Model.RegistryCov
 import Oracle.Util
 namespace Oracle.C09
 open OllamaVerif OllamaVerif.Registry Oracle
@@ -191,6 +195,16 @@ def handle (toks : List String) : Option String :=
       let as ← listOf pAttempt
       let cfg : Cfg := ⟨thr, if lim < 0 then none else some lim.toNat, sc, vf, sg⟩
       pure (joinWith " | " (showHistory cfg Cache.empty as))) rest
+  | "pullcov" :: rest =>
+    runTP (do
+      let thr ← nat
+      let lim ← int
+      let sc ← pBool
+      let vf ← pBool
+      let sg ← pBool
+      let as ← listOf pAttempt
+      let cfg : Cfg := ⟨thr, if lim < 0 then none else some lim.toNat, sc, vf, sg⟩
+      pure (joinWith " " (historyTags id cfg Cache.empty as))) rest
   | "hpull" :: rest =>
     runTP (do
       let thr ← nat
